@@ -13,7 +13,7 @@ import (
 func init() {
 	register(&propDef{
 		ID:          "C10",
-		Explanation: "Decides the error discipline and buffer ownership on every path of generated and runtime code: R1 every statement the generator can emit that assigns the render error from a call (writes, literal writes, nested Render, RenderAttributes/CSS/Script items, expression evaluation) is immediately followed by an emitted `if err != nil { return … }` (all GEM emission paths, incl. the literal-closing template of the range writer); R2 expression evaluations are followed by the handler that wraps the error in templ.Error{FileName, Line from that same expression}; R3 the emitted template body returns ctx.Err() before acquiring the buffer or writing anything; R4 the emitted body releases the buffer only in a defer, only when it acquired it, and adopts the flush error iff no earlier error; R5 in packages templ and templ/runtime every error returned by a write to / render into the writer is propagated to a return on every path (no dropped or overwritten error); R6 pooled buffers are reset (on acquisition or before release) and flushed before being returned to the pool. R8 every runtime function that takes the expression's errors as a variadic ...error parameter hands the whole list to errors.Join or to another such function, and no condition inspects a single element of it (a guard on errs[0] alone drops an error that arrives second, as in `{{ v, errA, errB }}`); R9 the memory of a pooled buffer is not used after the buffer went back to the pool. R10 (= C15.R8) the generator options handed to concurrent workers are not appended to in place on a slice with spare capacity (a worker would otherwise generate a file with another template's file name in its error locations). R11 a parser.Expression literal built by the generator that embeds a user expression's text keeps that expression's Range (the emitted error handler takes Line/Col from it), and the handler emitter reads that Range; R12 no runtime function writes to the buffer's underlying writer itself — only the bufio.Writer does, which is what turns a short write with a nil error into io.ErrShortWrite. NOT decided: the prefix property at each byte offset, behaviour of user writers. R13 element-write loops are left early only with the write error; R14 a style-value handler never returns (not handled, error value); R15 every path of (*Buffer).Flush calls the bufio writer's Flush (which reports the remembered write error). R16 no error result of packages templ / runtime / safehtml is dropped (implicitly, or stored and overwritten before it is read); R17 an error that was detected is returned on that path; R18 a component closure keeps no state between renders. R5 also, for writes made through a sticky error cell (a struct that keeps the first write error; its storing methods start with `if r.err != nil { return }`): every return reachable from a write through the cell hands back the cell's error or follows a test of it, and the cell's error is not assigned directly after a write. R19 fmt.Errorf uses %w for every error argument (the cause stays in the chain). R20 no deferred call writes to the render writer (a closing tag after a failed body). R21 (= C11.R12) bytes.NewBuffer is never given a zero-filled make([]byte, n). R8 also: no early return is chosen by len(errs) — the emitter spreads a (value, error) call into (v, errs...), so a successful call arrives with errs == [nil]. R14 also for named results: a bare return in the branch taken for a non-nil error while the `handled` result was never set. R22 (= C11.R13) a deferred function literal assigns a named error result only where it is still nil, or joins it; R23 runtime.GetBuffer recognises the render buffer by the writer's own dynamic type (no Unwrap chains); R24 (= C12.R17) OnceHandle.Once records the handle before it renders the content.",
+		Explanation: "Decides the error discipline and buffer ownership on every path of generated and runtime code: R1 every statement the generator can emit that assigns the render error from a call (writes, literal writes, nested Render, RenderAttributes/CSS/Script items, expression evaluation) is immediately followed by an emitted `if err != nil { return … }` (all GEM emission paths, incl. the literal-closing template of the range writer); R2 expression evaluations are followed by the handler that wraps the error in templ.Error{FileName, Line from that same expression}; R3 the emitted template body returns ctx.Err() before acquiring the buffer or writing anything; R4 the emitted body releases the buffer only in a defer, only when it acquired it, and adopts the flush error iff no earlier error; R5 in packages templ and templ/runtime every error returned by a write to / render into the writer is propagated to a return on every path (no dropped or overwritten error); R6 pooled buffers are reset (on acquisition or before release) and flushed before being returned to the pool. R8 every runtime function that takes the expression's errors as a variadic ...error parameter hands the whole list to errors.Join or to another such function, and no condition inspects a single element of it (a guard on errs[0] alone drops an error that arrives second, as in `{{ v, errA, errB }}`); R9 the memory of a pooled buffer is not used after the buffer went back to the pool. R10 (= C15.R8) the generator options handed to concurrent workers are not appended to in place on a slice with spare capacity (a worker would otherwise generate a file with another template's file name in its error locations). R11 a parser.Expression literal built by the generator that embeds a user expression's text keeps that expression's Range (the emitted error handler takes Line/Col from it), and the handler emitter reads that Range; R12 no runtime function writes to the buffer's underlying writer itself — only the bufio.Writer does, which is what turns a short write with a nil error into io.ErrShortWrite. NOT decided: the prefix property at each byte offset, behaviour of user writers. R13 element-write loops are left early only with the write error; R14 a style-value handler never returns (not handled, error value); R15 every path of (*Buffer).Flush calls the bufio writer's Flush (which reports the remembered write error). R16 no error result of packages templ / runtime / safehtml is dropped (implicitly, or stored and overwritten before it is read); R17 an error that was detected is returned on that path; R18 a component closure keeps no state between renders. R5 also, for writes made through a sticky error cell (a struct that keeps the first write error; its storing methods start with `if r.err != nil { return }`): every return reachable from a write through the cell hands back the cell's error or follows a test of it, and the cell's error is not assigned directly after a write. R19 fmt.Errorf uses %w for every error argument (the cause stays in the chain). R20 no deferred call writes to the render writer (a closing tag after a failed body). R21 (= C11.R12) bytes.NewBuffer is never given a zero-filled make([]byte, n). R8 also: no early return is chosen by len(errs) — the emitter spreads a (value, error) call into (v, errs...), so a successful call arrives with errs == [nil]. R14 also for named results: a bare return in the branch taken for a non-nil error while the `handled` result was never set. R22 (= C11.R13) a deferred function literal assigns a named error result only where it is still nil, or joins it; R23 runtime.GetBuffer recognises the render buffer by the writer's own dynamic type (no Unwrap chains); R24 (= C12.R17) OnceHandle.Once records the handle before it renders the content. R17 also (round 11): a path that obtained an error from a call and never looked at it does not answer with another call's error either (return w.Flush() after err = children.Render(...)).",
 		Assumptions: []string{"bufio.Writer reports a short write as an error; a returned error aborts the caller's rendering (checked for generated callers by R1)"},
 		Trusted:     []string{"go/types", "go/parser", "x/tools go/packages, go/cfg"},
 		Run:         runC10,
